@@ -187,3 +187,15 @@ func verifHarness_C05_goroutine_3x1_closer_T() {
 	verifC05(1, 3, 1, true, true, false, false, 1)
 	verifAssert(false, "witness")
 }
+
+// a panicking job under every executor (the panic must not keep later jobs
+// from running, whichever goroutine runs the queue)
+func verifHarness_C05_inline_panic() {
+	verifC05(0, 2, 2, false, true, false, false, 1)
+	verifAssert(false, "witness")
+}
+
+func verifHarness_C05_pool_panic_closer_T() {
+	verifC05(2, 2, 1, true, true, false, false, 1)
+	verifAssert(false, "witness")
+}
